@@ -72,6 +72,35 @@ def omegaSeq (s : Seq) : String := String.ofList (s.map (fun a => if T.omegaX a 
 
 end
 
+/-! ### the permutant returned by `deltaMax(returnSeqDeltaMax=True)` -/
+
+/-- deal the parent's positive / negative / other residues out, in order, along a reduced candidate -/
+def dealOut : Pattern → List AA → List AA → List AA → List AA
+  | [], _, _, _ => []
+  | c :: cs, ps, ns, us =>
+    if 0 < c then match ps with
+      | x :: ps' => x :: dealOut cs ps' ns us
+      | [] => dealOut cs ps ns us
+    else if c < 0 then match ns with
+      | x :: ns' => x :: dealOut cs ps ns' us
+      | [] => dealOut cs ps ns us
+    else match us with
+      | x :: us' => x :: dealOut cs ps ns us'
+      | [] => dealOut cs ps ns us
+
+/-- `__permutant_from_reduced_seq`: R/K are the positive residues, D/E the negative ones -/
+def permutantFromReduced (cand : Pattern) (parent : Seq) : Seq :=
+  dealOut cand
+    (parent.filter (fun a => a = AA.R ∨ a = AA.K))
+    (parent.filter (fun a => a = AA.D ∨ a = AA.E))
+    (parent.filter (fun a => ¬ (a = AA.D ∨ a = AA.E ∨ a = AA.R ∨ a = AA.K)))
+
+/-- `deltaMax(True)[1]` on a fresh object: the first maximiser dealt out, the sequence itself when uncharged -/
+def dmaxPermutant (T : Tables) (s : Seq) : Seq :=
+  match dmaxArg (patternOf T s) with
+  | none => s
+  | some c => permutantFromReduced c s
+
 /-! ### kappa_X: group parsing and recoding -/
 
 /-- a Python group member as the harness sends it: a string, or something without `.upper()` -/
